@@ -129,11 +129,14 @@ static void gen_huge(SplitMix &g, ll count) {
   for (ll it = 0; it < count; ++it) {
     int nsnk, nsrc; std::vector<ll> dems, caps; std::vector<std::vector<ll>> costs; int incr = 0;
     if (g.coin(45)) {
-      // designed spills: 1..3 independent blocks of ONE source and 1..4 private sinks (costs 0..10 inside the block, 1000 to the
+      // designed spills: 1..3 independent blocks of ONE source and 1..4 private sinks (costs 0..12 inside the block, 1000 to the
       // other blocks' sinks, block capacity >= block demand): the source fills its sinks in cost order, nothing is ever re-routed,
       // so the run time does not depend on the magnitudes (a 2-sink 3-source problem with a 10-unit slack next to 2^36-sized
       // quantities takes minutes, in the C++ and in the model).  e.g. 2^32+30 split 2^32+10 / 20; a share of exactly 2^31.
-      int nb = (int)g.uni(1, 3); std::vector<int> blk_of_sink; std::vector<ll> bc;
+      // Inside a block the costs are distinct and increase as the capacities decrease: sending to sink t directly and
+      // sending through a cheaper full sink f (moving f's share to t) cost the same, bestSink takes the lower index, and the
+      // path through f moves at most f's share per iteration: a 5-unit sink that is cheaper than a 2^32 one means 2^32/5 iterations.
+      int nb = (int)g.uni(1, 3); std::vector<int> blk_of_sink; std::vector<ll> bc, bk;
       nsrc = nb; dems.assign(nsrc, 0);
       for (int b = 0; b < nb; ++b) {
         int k = (int)g.uni(1, 4); ll A = huge_share(g); ll others = 0;
@@ -144,6 +147,8 @@ static void gen_huge(SplitMix &g, ll count) {
           else { int rk = (int)g.uni(0, 8); c = rk == 0 ? 5 : rk == 1 ? 7 : rk == 2 ? 20 : rk == 3 ? 35 : rk == 4 ? 1000 : rk == 5 ? (1LL << 31) - 1 : rk == 6 ? (1LL << 31) : rk == 7 ? A : g.uni(1, A); others += c; }
           blk_of_sink.push_back(b); bc.push_back(c);
         }
+        std::sort(bc.end() - k, bc.end(), std::greater<ll>());
+        ll kc = g.uni(0, 3); for (int q = 0; q < k; ++q) { bk.push_back(kc); kc += g.uni(1, 3); }
         int dk = (int)g.uni(0, 6);
         ll d = dk == 0 ? A : dk == 1 ? A + std::min<ll>(others, 3) : dk == 2 ? A + std::min<ll>(others, 20) : dk == 3 ? A + others : dk == 4 ? A - 1 : A + g.uni(0, others);
         dems[b] = std::max<ll>(1, d);
@@ -155,7 +160,7 @@ static void gen_huge(SplitMix &g, ll count) {
       caps.assign(nsnk, 0); costs.assign(nsnk, std::vector<ll>(nsrc));
       for (int j = 0; j < nsnk; ++j) {
         caps[j] = bc[perm[j]];
-        for (int i = 0; i < nsrc; ++i) costs[j][i] = blk_of_sink[perm[j]] == i ? g.uni(0, 10) : 1000;
+        for (int i = 0; i < nsrc; ++i) costs[j][i] = blk_of_sink[perm[j]] == i ? bk[perm[j]] : 1000;
       }
     } else {
       // a small problem (quantities in units, max demand / min capacity <= 250 as in gen_rand) scaled by a granule G: the solver
